@@ -121,7 +121,10 @@ def run_property(pid, tier, seed, repo=None, write=True):
         if not _skip32(fn):
             runs.append((fn, "@32"))
     n64 = None
+    from . import scope
+
     for fn, cfg in runs:
+        n_before = len(res.findings)
         try:
             if cfg is None:
                 fn(ctx, res)
@@ -131,6 +134,9 @@ def run_property(pid, tier, seed, repo=None, write=True):
                 fn(ctx32, res)
             else:
                 fn(ctx, res, config=cfg)
+            # attribution: a finding located outside what this property is anchored in is a note here and a violation of the
+            # property that owns the location (nbsa/scope.py)
+            scope.apply(pid, res, n_before, ctx32 if cfg == "@32" else ctx)
         except core.SkipConfig:
             pass
         except core.ExtractError as e:
